@@ -36,6 +36,9 @@ def cases(tier, seed):
                 out.append({"arg": a, "mut": pat, "H": H, "above_root": int(pn in ("mod3", "ones"))})
             if pn == "ones":
                 out.append({"arg": a, "mut": pat, "H": {"kind": "cont"}, "above_root": 0, "merge_sites": True})
+                # pre-existing metadata: identical annotation on every row / distinct rows / an earlier tsdate run
+                for X in ("uniform", "rich", "redated"):
+                    out.append({"arg": a, "mut": pat, "H": {"kind": "cont"}, "above_root": 1, "X": X})
             if a["nn"] - a["n"] > 1:
                 # node-numbering decorator: non-sample ids in decreasing-age order (as tsinfer numbers them) / rotated
                 for rn in (("reverse",) if tier == "quick" else ("reverse", "rotate")):
@@ -57,6 +60,10 @@ def _same(a, b):
 
 def run(case):
     ts, _ = dating.build_input(case)
+    if case.get("X"):
+        from mc import xdecor
+
+        ts = xdecor.decorate(ts, case["X"])
     viol, tags, keys = [], {}, []
     evals = 0
     cont = case["H"]["kind"] == "cont"
@@ -140,5 +147,5 @@ def run(case):
         if np.any(np.isnan(mn)):
             bad("no_time_metadata_written", "some node rows lack mn although the table had neither schema nor metadata")
         elif np.any(~is_sample):
-            keys.append(f"{case['arg']['id']}|{case['mut']}|{case['H']}|{case.get('renumber')}|{case.get('merge_sites')}|{method}|{kw}")
+            keys.append(f"{case['arg']['id']}|{case['mut']}|{case['H']}|{case.get('renumber')}|{case.get('merge_sites')}|{case.get('X')}|{method}|{kw}")
     return {"evals": evals, "viol": viol, "tags": tags, "keys": keys}
